@@ -32,21 +32,27 @@ VARIABLES pd,      \* pending_dials (keys)
           opened,  \* opened_raw (keys)
           popen,   \* pending_open (keys)
           cf,      \* cancel_futures: id -> aborted?
-          req, auth, next, nconn, mon, warn, hist
+          req, auth, next, nconn, mon, warn,
+          dconn,   \* futures of pending_connections whose work is finished but that were not polled since: [f, res, p]
+          draw,    \* the same for pending_raw_connections: [c, res, a, errs]
+          awake,   \* the task polling the stream has been woken (or has just issued a command)
+          hist
 
-vars == <<pd, pin, pconn, praw, opened, popen, cf, req, auth, next, nconn, mon, warn, hist>>
+vars == <<pd, pin, pconn, praw, opened, popen, cf, req, auth, next, nconn, mon, warn, dconn, draw, awake, hist>>
 
 WantOf(a) == IF a = "a3" THEN "" ELSE "P1"
 SockOf(a) == "s" \o a
 Addrs2 == {"a1", "a2"}
 Addrs3 == {"a1", "a2", "a3"}
 Addrs13 == {"a1", "a3"}
+Addrs1 == {"a1"}
 PeersDef == {"P1", "P2"}
 
 Init ==
   /\ pd = {} /\ pin = {} /\ pconn = {} /\ praw = {} /\ opened = {} /\ popen = {} /\ cf = <<>>
   /\ req = <<>> /\ auth = <<>> /\ next = 0 /\ nconn = 0
   /\ mon = MonInit /\ warn = FALSE /\ hist = <<>>
+  /\ dconn = {} /\ draw = {} /\ awake = TRUE
 
 Ids == 0..(next - 1)
 Seq1(S) == {<<a>> : a \in S}
@@ -56,7 +62,8 @@ Map(f(_), s) == [i \in 1..Len(s) |-> f(s[i])]
 Without(f, c) == [x \in DOMAIN f \ {c} |-> f[x]]
 
 Feed(m, h) == /\ mon' = m /\ hist' = Append(hist, h)
-Call(k, h) == Feed(MonCall(mon, k), h)
+Call(k, h) == Feed(MonCall(mon, k), h) /\ awake' = TRUE /\ UNCHANGED <<dconn, draw>>
+Polled == UNCHANGED awake
 Event(e, h) == Feed(MonEvent(mon, e), h)
 
 -----------------------------------------------------------------------------
@@ -127,79 +134,97 @@ CRejectPending(c) ==
 RemoteConnect ==
   /\ nconn + next < MaxCid
   /\ nconn' = nconn + 1
-  /\ UNCHANGED <<pd, pin, pconn, praw, opened, popen, cf, req, auth, next, warn>>
+  /\ awake' = TRUE
+  /\ UNCHANGED <<pd, pin, pconn, praw, opened, popen, cf, req, auth, next, warn, dconn, draw>>
   /\ Feed(MonConnect(mon), [a |-> "connect"])
+
+\* the work of a future finishes while nobody polls (see TcpTransportMC)
+DoneConn(f) ==
+  /\ f \in pconn /\ ~\E d \in dconn : d.f = f
+  /\ \E res \in {"ok", "err"} : \E p \in Peers :
+       /\ (f.k = "neg" => res = "ok" /\ p = auth[f.c].p)
+       /\ (f.k = "dial" /\ res = "ok" => p = WantOf(req[f.c].addrs[1]))   \* the TLS verifier only accepts the named peer
+       /\ (res = "err" => p = "P1")
+       /\ dconn' = dconn \cup {[f |-> f, res |-> res, p |-> p]}
+       /\ hist' = Append(hist, [a |-> "done", c |-> f.c, k |-> f.k, res |-> res])
+  /\ awake' = TRUE
+  /\ UNCHANGED <<pd, pin, pconn, praw, opened, popen, cf, req, auth, next, nconn, mon, warn, draw>>
+
+DoneRaw(c) ==
+  /\ c \in praw /\ ~\E d \in draw : d.c = c
+  /\ \/ \E i \in 1..Len(req[c].addrs) : \E errset \in SUBSET (ToSetS(req[c].addrs) \ {req[c].addrs[i]}) :
+          LET a == req[c].addrs[i] IN
+          /\ WantOf(a) # ""     \* PeerIdMissing otherwise
+          /\ draw' = draw \cup {[c |-> c, res |-> "connected", a |-> a, errs |-> SetToSeq(errset)]}
+          /\ hist' = Append(hist, [a |-> "done", c |-> c, k |-> "raw", res |-> "connected"])
+     \/ \* no deadline in QUIC's open(): Failed carries an error for every address
+        /\ draw' = draw \cup {[c |-> c, res |-> "failed", a |-> "", errs |-> req[c].addrs]}
+        /\ hist' = Append(hist, [a |-> "done", c |-> c, k |-> "raw", res |-> "failed"])
+  /\ awake' = TRUE
+  /\ UNCHANGED <<pd, pin, pconn, praw, opened, popen, cf, req, auth, next, nconn, mon, warn, dconn>>
 
 -----------------------------------------------------------------------------
 PListener ==
-  /\ nconn > 0 /\ next < MaxCid
+  /\ awake /\ nconn > 0 /\ next < MaxCid
   /\ next' = next + 1 /\ nconn' = nconn - 1
   /\ pin' = pin \cup {next}
   /\ req' = (next :> [addrs |-> <<>>]) @@ req
-  /\ UNCHANGED <<pd, pconn, praw, opened, popen, cf, auth, warn>>
+  /\ UNCHANGED <<pd, pconn, praw, opened, popen, cf, auth, warn, dconn, draw>> /\ Polled
   /\ Event([k |-> "pending_inbound", cid |-> next], [a |-> "p_listener", c |-> next])
 
 PRawCanceled(c) ==
-  /\ c \in praw /\ c \in DOMAIN cf /\ cf[c]
+  /\ awake /\ c \in praw /\ c \in DOMAIN cf /\ cf[c]
   /\ praw' = praw \ {c}
+  /\ draw' = {d \in draw : d.c # c}
   /\ cf' = Without(cf, c)
-  /\ UNCHANGED <<pd, pin, pconn, opened, popen, req, auth, next, nconn, warn>>
+  /\ UNCHANGED <<pd, pin, pconn, opened, popen, req, auth, next, nconn, warn, dconn>> /\ Polled
   /\ Feed(mon, [a |-> "p_raw", c |-> c, res |-> "canceled"])
 
-PRawConnected(c) ==
-  /\ c \in praw /\ (c \in DOMAIN cf => ~cf[c])
-  /\ praw' = praw \ {c}
-  /\ \E i \in 1..Len(req[c].addrs) : \E errset \in SUBSET (ToSetS(req[c].addrs) \ {req[c].addrs[i]}) :
-       LET a == req[c].addrs[i] errs == SetToSeq(errset) IN
-       /\ WantOf(a) # ""     \* PeerIdMissing otherwise; the TLS verifier only accepts the named peer
-       /\ IF c \in DOMAIN cf
-            THEN /\ cf' = Without(cf, c)
-                 /\ opened' = opened \cup {c}
-                 /\ auth' = (c :> [p |-> WantOf(a), a |-> a]) @@ auth
-                 /\ warn' = warn
-                 /\ Event([k |-> "opened", cid |-> c, addr |-> a, errs |-> errs],
-                          [a |-> "p_raw", c |-> c, res |-> "connected", addr |-> a, errs |-> errs])
-            ELSE /\ warn' = TRUE /\ UNCHANGED <<cf, opened, auth>>
-                 /\ Feed(mon, [a |-> "p_raw", c |-> c, res |-> "lost"])
-  /\ UNCHANGED <<pd, pin, pconn, popen, req, next, nconn>>
+PRawTake(d) ==
+  /\ awake /\ d \in draw /\ (d.c \in DOMAIN cf => ~cf[d.c])
+  /\ LET c == d.c IN
+     /\ praw' = praw \ {c}
+     /\ draw' = draw \ {d}
+     /\ UNCHANGED <<pd, pin, pconn, popen, req, next, nconn, dconn>> /\ Polled
+     /\ IF c \notin DOMAIN cf
+          THEN /\ warn' = TRUE /\ UNCHANGED <<cf, opened, auth>>
+               /\ Feed(mon, [a |-> "p_raw", c |-> c, res |-> "lost"])
+          ELSE /\ cf' = Without(cf, c) /\ warn' = warn
+               /\ IF d.res = "connected"
+                    THEN /\ opened' = opened \cup {c}
+                         /\ auth' = (c :> [p |-> WantOf(d.a), a |-> d.a]) @@ auth
+                         /\ Event([k |-> "opened", cid |-> c, addr |-> d.a, errs |-> d.errs],
+                                  [a |-> "p_raw", c |-> c, res |-> "connected", addr |-> d.a, errs |-> d.errs])
+                    ELSE /\ UNCHANGED <<opened, auth>>
+                         /\ Event([k |-> "open_failure", cid |-> c, errs |-> d.errs],
+                                  [a |-> "p_raw", c |-> c, res |-> "failed", errs |-> d.errs])
 
-PRawFailed(c) ==
-  /\ c \in praw /\ (c \in DOMAIN cf => ~cf[c])
-  /\ praw' = praw \ {c}
-  \* no deadline in QUIC's open(): Failed carries an error for every address
-  /\ LET errs == req[c].addrs IN
-     IF c \in DOMAIN cf
-       THEN /\ cf' = Without(cf, c) /\ warn' = warn
-            /\ Event([k |-> "open_failure", cid |-> c, errs |-> errs], [a |-> "p_raw", c |-> c, res |-> "failed", errs |-> errs])
-       ELSE /\ warn' = TRUE /\ UNCHANGED cf
-            /\ Feed(mon, [a |-> "p_raw", c |-> c, res |-> "lost"])
-  /\ UNCHANGED <<pd, pin, pconn, opened, popen, req, auth, next, nconn>>
-
-\* on_connection_established(id, Ok(connection))
-PConnOk(f) ==
-  /\ f \in pconn
-  /\ pconn' = pconn \ {f}
-  /\ LET c == f.c dialed == c \in pd IN
+\* on_connection_established(id, result)
+PConnTake(d) ==
+  /\ awake /\ d \in dconn
+  /\ pconn' = pconn \ {d.f}
+  /\ dconn' = dconn \ {d}
+  /\ LET c == d.f.c k == d.f.k dialed == c \in pd IN
      /\ pd' = pd \ {c}
-     /\ popen' = popen \cup {c}
-     /\ UNCHANGED <<pin, praw, opened, cf, req, auth, next, nconn, warn>>
-     /\ \E p \in Peers :
-          /\ (f.k = "dial" => p = WantOf(req[c].addrs[1]))
-          /\ (f.k = "neg" => p = auth[c].p)
-          /\ LET a == IF f.k = "dial" THEN req[c].addrs[1] ELSE IF f.k = "neg" THEN auth[c].a ELSE "remote" IN
-             Event([k |-> "est", cid |-> c, dir |-> IF dialed THEN "out" ELSE "in", peer |-> p, addr |-> IF dialed THEN a ELSE "remote"],
-                   [a |-> "p_conn", c |-> c, res |-> "ok", peer |-> p])
+     /\ UNCHANGED <<pin, praw, opened, cf, req, auth, next, nconn, warn, draw>>
+     /\ IF d.res = "ok"
+          THEN /\ popen' = popen \cup {c}
+               /\ Polled
+               /\ LET a == IF k = "dial" THEN req[c].addrs[1] ELSE IF k = "neg" THEN auth[c].a ELSE "remote" IN
+                  Event([k |-> "est", cid |-> c, dir |-> IF dialed THEN "out" ELSE "in", peer |-> d.p, addr |-> IF dialed THEN a ELSE "remote"],
+                        [a |-> "p_conn", c |-> c, res |-> "ok", peer |-> d.p])
+          ELSE /\ UNCHANGED popen
+               /\ IF dialed
+                    THEN /\ Polled
+                         /\ Event([k |-> "dial_failure", cid |-> c, addr |-> req[c].addrs[1]], [a |-> "p_conn", c |-> c, res |-> "err"])
+                    ELSE /\ awake' = (Mutant # "inbound-failure-ends-poll")
+                         /\ Feed(mon, [a |-> "p_conn", c |-> c, res |-> "err"])
 
-\* on_connection_established(id, Err(error)): only dial and inbound futures can fail
-PConnErr(f) ==
-  /\ f \in pconn /\ f.k \in {"dial", "in"}
-  /\ pconn' = pconn \ {f}
-  /\ LET c == f.c IN
-     /\ pd' = pd \ {c}
-     /\ UNCHANGED <<pin, praw, opened, popen, cf, req, auth, next, nconn, warn>>
-     /\ IF c \in pd
-          THEN Event([k |-> "dial_failure", cid |-> c, addr |-> req[c].addrs[1]], [a |-> "p_conn", c |-> c, res |-> "err"])
-          ELSE Feed(mon, [a |-> "p_conn", c |-> c, res |-> "err"])
+NothingReady == dconn = {} /\ nconn = 0 /\ draw = {} /\ \A c \in praw : ~(c \in DOMAIN cf /\ cf[c])
+PollIdle ==
+  /\ awake /\ NothingReady
+  /\ awake' = FALSE
+  /\ UNCHANGED <<pd, pin, pconn, praw, opened, popen, cf, req, auth, next, nconn, mon, warn, dconn, draw, hist>>
 
 Next ==
   \/ \E a \in Addrs : CDial(a)
@@ -207,9 +232,11 @@ Next ==
   \/ \E as \in OpenArgs : COpen(as)
   \/ \E c \in Ids : \/ CCancel(c) \/ CNegotiate(c) \/ CDecide(c, "accept") \/ CDecide(c, "reject")
                     \/ CAcceptPending(c) \/ CRejectPending(c)
-                    \/ PRawCanceled(c) \/ PRawConnected(c) \/ PRawFailed(c)
-  \/ RemoteConnect \/ PListener
-  \/ \E f \in pconn : PConnOk(f) \/ PConnErr(f)
+                    \/ PRawCanceled(c) \/ DoneRaw(c)
+  \/ RemoteConnect \/ PListener \/ PollIdle
+  \/ \E f \in pconn : DoneConn(f)
+  \/ \E d \in dconn : PConnTake(d)
+  \/ \E d \in draw : PRawTake(d)
 
 Spec == Init /\ [][Next]_vars
 
@@ -224,11 +251,12 @@ BookkeepingExact == /\ BkExact(mon, Bk)
                     /\ (Mutant = "" => pd = IdsIn(mon, {"dialing", "negotiating"}))
                     /\ IdsIn(mon, {"dialing", "negotiating"}) \subseteq {f.c : f \in pconn}
                     /\ {f.c : f \in pconn} \subseteq IdsIn(mon, {"dialing", "negotiating", "in_neg"})
-Quiescent == pconn = {} /\ praw = {} /\ nconn = 0
+NoLostWakeup == ~awake => NothingReady
+Quiescent == ~awake /\ nconn = 0 /\ (\A f \in pconn : \E d \in dconn : d.f = f) /\ (\A c \in praw : \E d \in draw : d.c = c)
 LeakFree == Quiescent => MonQuiesce(mon, Bk).bad = ""
 CancelledNeverOpened == \A c \in DOMAIN cf : cf[c] => c \notin opened
 
-View == <<pd, pin, pconn, praw, opened, popen, cf, req, auth, next, nconn, mon, warn>>
-GenView == <<pd, pin, pconn, praw, opened, popen, cf, req, auth, next, nconn>>
+View == <<pd, pin, pconn, praw, opened, popen, cf, req, auth, next, nconn, mon, warn, dconn, draw, awake>>
+GenView == <<pd, pin, pconn, praw, opened, popen, cf, req, auth, next, nconn, dconn, draw, awake>>
 Emit == PrintT(<<"B", ToJson([steps |-> hist'])>>)
 =============================================================================
